@@ -20,7 +20,8 @@ VALID_SNIPPETS = [
     'async def f():\n    yield 1\n', 'async def f():\n    x = yield\n    await x\n',
     'a, *b = c\n', '*a, = b\n', '[*a, b] = c\n', 'for a, *b in c: pass\n', 'a, b = *c, d\n', 'print(*a, *b, **c, **d)\n',
     'f(*a, b, *c, d=1, **e)\n', 'f(a, *b, c=1, *d, **e)\n', 'f(x for x in y)\n', 'f(a, (x for x in y))\n', 'f(**a, b=1)\n',
-    'f(a := 1)\n', 'f((a := 1), b=(c := 2))\n', 'if (n := len(a)) > 1: pass\n', '[y := f(x), y**2]\n', 'x = (y := 1) + y\n',
+    'f(a := 1)\n', 'f(a := 1, b)\n', 'print(y := f(x), y**2)\n', 'g(n := 1, n := 2)\n', 'f(a := 1, *b, c=2, **d)\n', 'f((a := 1), b=(c := 2))\n',
+    'x[a := 1]\n', 'x[a := 1, b]\n', 'f(*a, b := 2)\n', 'if (n := len(a)) > 1: pass\n', '[y := f(x), y**2]\n', 'x = (y := 1) + y\n',
     'while chunk := f.read(1):\n    pass\n', '[(z := x) for x in y if (w := x)]\n', 'def f(a, b=(c := 1)): pass\n',
     'x: int = 1\n', 'x: int\n', 'x.y: int = 1\n', 'x[0]: int\n', '(x): int = 1\n', 'class A:\n    x: int = 1\n    y: "str"\n',
     'def f(a: int = 1, *b: x, c: y = 2, **d: z) -> w: pass\n', 'def f(a, /, b, *, c): pass\n', 'def f(a=1, /, b=2): pass\n',
@@ -127,6 +128,9 @@ def candidates(rng, files, deriver=None):
     """endless stream of candidate programs (origin, text); most compile, the filter decides"""
     while True:
         r = rng.random()
+        if rng.random() < .2:
+            yield 'lexical', lexical_program(rng)
+            continue
         if r < .25:
             s = rng.choice(VALID_SNIPPETS)
             if rng.random() < .5:
@@ -160,3 +164,76 @@ def candidates(rng, files, deriver=None):
                 yield 'blocks+mut', mutate(prog, rng)
             else:
                 yield 'blocks', prog
+
+
+# ---------------------------------------------------------------------------
+# lexical workload: literals spelled from the lexical grammar (numbers, strings), valid ones kept by compile()
+
+def _digits(rng, allow_leading_zero=True, n=None):
+    n = n or rng.randint(1, 4)
+    ds = [rng.choice('0123456789') for _ in range(n)]
+    if not allow_leading_zero and ds[0] == '0' and n > 1:
+        ds[0] = rng.choice('123456789')
+    out = ds[0]
+    for d in ds[1:]:
+        out += ('_' if rng.random() < .2 else '') + d
+    return out
+
+
+def number_literal(rng):
+    r = rng.random()
+    if r < .12:
+        return rng.choice(['0', '00', '0_0', '000', '7', '42', '1_000', '1__0', '0_', '_1', '1_'])
+    if r < .24:
+        p, ds = rng.choice([('0x', '0123456789abcdefABCDEF'), ('0X', '0123456789abcdef'), ('0o', '01234567'), ('0O', '01234567'),
+                            ('0b', '01'), ('0B', '01'), ('0b', '012'), ('0o', '0189')])
+        body = ''.join(rng.choice(ds) + ('_' if rng.random() < .15 else '') for _ in range(rng.randint(1, 5)))
+        return p + ('_' if rng.random() < .1 else '') + body.rstrip('_') + ('_' if rng.random() < .03 else '')
+    if r < .4:
+        return _digits(rng, allow_leading_zero=rng.random() < .3)
+    # float / imaginary
+    ip = _digits(rng) if rng.random() < .8 else ''
+    fp = ''
+    if rng.random() < .6:
+        fp = '.' + (_digits(rng) if (rng.random() < .8 or not ip) else '')
+    ex = ''
+    if rng.random() < .4:
+        ex = rng.choice('eE') + rng.choice(['', '+', '-']) + (_digits(rng) if rng.random() < .95 else '')
+    j = rng.choice('jJ') if rng.random() < .45 else ''
+    s = ip + fp + ex + j
+    return s or '0'
+
+
+_SPFX = ['', '', '', 'r', 'R', 'u', 'U', 'b', 'B', 'br', 'Br', 'bR', 'BR', 'rb', 'rB', 'Rb', 'RB', 'f', 'F', 'fr', 'Fr', 'fR', 'FR', 'rf', 'rF', 'Rf', 'RF',
+         'ur', 'bu', 'fb', 'rr']
+_SBODY = ['a', ' ', '%s', '"', "'", '\\"', "\\'", '\\\\', '\\n', '\\\n', '\\\r\n', '\\x41', '\\N{DASH}', '\\u1234', '{x}', '{{', '}}', '{x!r:>{w}}', '#', 'é',
+          '\\', '\n', '\t', '\\0', '\\400', '\\8', '""', "''", '{', '}', '\\{', ':', '=']
+
+
+def string_literal(rng):
+    p = rng.choice(_SPFX)
+    q = rng.choice(['"', "'", '"""', "'''"])
+    n = rng.randint(0, 5)
+    body = ''.join(rng.choice(_SBODY) for _ in range(n))
+    return p + q + body + q
+
+
+def lexical_program(rng):
+    lines = []
+    for _ in range(rng.randint(1, 5)):
+        r = rng.random()
+        if r < .4:
+            lit = number_literal(rng)
+            tmpl = rng.choice(['x = %s\n', 'x = [%s, 1]\n', 'x = %s + 1\n', 'x = -%s\n', 'x = (%s)\n', 'x = %s if y else z\n', 'x = %s.real\n',
+                               'x = %s .imag\n', 'f(%s)\n', 'x = 1if %s else 2\n', 'x = {%s: 1}\n', 'x = a[%s:]\n', 'x = %s or y\n', 'x = %sand y\n'])
+            lines.append(tmpl % lit)
+        elif r < .85:
+            lit = string_literal(rng)
+            tmpl = rng.choice(['s = %s\n', 's = (%s)\n', 's = %s %s\n', 'f(%s)\n', 's = [%s,\n     1]\n', 'msg = %s\n', 's = %s.format(1)\n', '%s\n',
+                               's = %s if 1 else 2\n', 's = x + %s\n'])
+            lines.append(tmpl.replace('%s %s', '%s ' + string_literal(rng).replace('%', '%%')) % lit if tmpl.count('%s') == 2 else tmpl % lit)
+        else:
+            lines.append(rng.choice(['x = a<<b>>c\n', 'x = a**-b\n', 'x = a//b\n', 'x @= y\n', 'x = a<=b>=c!=d\n', 'x = a->b\n' if False else 'def f() -> int: pass\n',
+                                     'x = a if b else c\n', 'x = [...]\n', 'x = a.b. c\n', 'x = a ;y = b\n', 'x = (a:=1)\n', 'x |= 1; x ^= 2; x &= 3\n',
+                                     'x = not-a\n', 'x = a<b\n', 'x=~a\n', 'x = a\\\n + b\n', 'x = (a,\n  b)\n', 'if a:\n\tb\n', 'if a:\n  b\n  c\n', 'x = 1 # c\n#d\n']))
+    return ''.join(lines)
